@@ -84,10 +84,10 @@ func c17Find(start, stop string) (out c17Out) {
 }
 
 type c17Case struct {
-	Levels []int `json:"levels"` // variant per level, top first
-	Start  int   `json:"start"`  // level index
-	Stop   int   `json:"stop"`   // level index, or -1 = unrelated directory
-	ChildAfter bool `json:"child_after,omitempty"` // chain directories sort after "spokfile"
+	Levels     []int `json:"levels"`                // variant per level, top first
+	Start      int   `json:"start"`                 // level index
+	Stop       int   `json:"stop"`                  // level index, or -1 = unrelated directory
+	ChildAfter bool  `json:"child_after,omitempty"` // chain directories sort after "spokfile"
 }
 
 // c17Oracle: dirs[i] is the directory of level i.
